@@ -93,7 +93,7 @@ def run(ck):
     tvar, gvar = [u(e) for e in lp.target.elts]
     # the ITP write and its first-occurrence guard
     withs = [(s, c, e) for s, c, e in stmts_with_env(wt, lambda s: isinstance(s, ast.With), stmts=lp.body)
-             if any(call_name(i.context_expr) == 'deferred_open' and '.itp' in u(i.context_expr) for i in s.items)]
+             if any(call_name(i.context_expr) == 'deferred_open' for i in s.items)]
     ck.need(len(withs) == 1, 'write_gmx_topology: the deferred write of "<moltype>.itp" not found in the group loop')
     wst, wcond, wenv = withs[0]
     guard = [k for k in flow.atoms_of(wcond) if k[0] == 'In' and k[1] == tvar]
@@ -104,27 +104,33 @@ def run(ck):
     ck.ob('PROV-include-once', top.loc(wst), ok, 'the ITP of a molecule type is written on its first occurrence only (guard `{} not in {}`, recorded in the same arm)'.format(tvar, seen),
           key='PROV-include-once|itp-guard')
     itpname = [i.context_expr for i in wst.items][0]
-    ck.ob('PROV-include-once', top.loc(wst), u(itpname.args[0]) in ('"{}.itp".format(' + tvar + ')', "'{}.itp'.format(" + tvar + ')'),
-          'the ITP file is named after the molecule type', key='PROV-include-once|itp-name')
+    # the file name is the type name with '.itp' *appended* (one file per type name, whatever characters the name has)
+    itp_txt = u(flow.subst(itpname.args[0], wenv)) if itpname.args else '?'
+    ck.ob('PROV-include-once', top.loc(wst), itp_txt in ("'{}.itp'.format(" + tvar + ')', tvar + " + '.itp'", "f'{" + tvar + "}.itp'"),
+          'the ITP file is named after the molecule type: `<type>.itp` (found `{}`)'.format(itp_txt), key='PROV-include-once|itp-name')
     # the include list
     inc_fmt = [c for c in walk_local(wt) if isinstance(c, ast.Call) and call_attr(c) == 'format' and isinstance(c.func.value, ast.Constant)
                and isinstance(c.func.value.value, str) and c.func.value.value.startswith('#include') and '.itp' in c.func.value.value]
-    ck.need(len(inc_fmt) == 1, 'write_gmx_topology: the \'#include "{}.itp"\' format not found')
-    gen = top.enclosing(inc_fmt[0], (ast.GeneratorExp, ast.ListComp))
-    ck.need(gen is not None, 'write_gmx_topology: the include lines are not built by a comprehension')
-    src = gen.generators[0].iter
-    src_name = u(src)
-    apps = stmts_with_env(wt, lambda s: isinstance(s, ast.Expr) and call_attr(s.value) in ('append', 'add', 'extend') and u(s.value.func.value) == src_name, stmts=lp.body)
-    elsewhere = [c for c in walk_local(wt) if isinstance(c, ast.Call) and call_attr(c) in ('append', 'add', 'extend', 'insert') and u(c.func.value) == src_name
-                 and not any(c is n for n in ast.walk(lp))]
-    first_only = len(apps) >= 1 and all(flow.equivalent(c, wcond)[0] for s, c, e in apps) and not elsewhere
-    is_dedup = isinstance(src, ast.Call) and call_name(src) in ('dict.fromkeys',)   # an order-preserving dedup is also fine
-    elt_ok = u(inc_fmt[0].args[0]) == u(gen.generators[0].target) if not isinstance(gen.generators[0].target, ast.Tuple) else \
-        u(inc_fmt[0].args[0]) == u(gen.generators[0].target.elts[0])
-    pushed = all(u(s.value.args[0]) == tvar for s, c, e in apps) if not is_dedup else True
-    ck.ob('PROV-include-once', top.loc(inc_fmt[0]), (first_only or is_dedup) and elt_ok and pushed and not gen.generators[0].ifs,
-          'the #include lines are produced from `{}`, which receives a molecule type exactly when its ITP is written (first occurrence): '
-          '{} append site(s) in the loop, guards {}'.format(src_name, len(apps), [flow.show(c)[:60] for s, c, e in apps]), key='PROV-include-once|include-list')
+    if len(inc_fmt) != 1:
+        ck.ob('PROV-include-once', top.loc(wt), False, 'the include lines are `#include "<type>.itp"` for the written types ({} such format(s) found)'.format(len(inc_fmt)),
+              key='PROV-include-once|include-list')
+        inc_fmt = None
+    if inc_fmt is not None:
+        gen = top.enclosing(inc_fmt[0], (ast.GeneratorExp, ast.ListComp))
+        ck.need(gen is not None, 'write_gmx_topology: the include lines are not built by a comprehension')
+        src = gen.generators[0].iter
+        src_name = u(src)
+        apps = stmts_with_env(wt, lambda s: isinstance(s, ast.Expr) and call_attr(s.value) in ('append', 'add', 'extend') and u(s.value.func.value) == src_name, stmts=lp.body)
+        elsewhere = [c for c in walk_local(wt) if isinstance(c, ast.Call) and call_attr(c) in ('append', 'add', 'extend', 'insert') and u(c.func.value) == src_name
+                     and not any(c is n for n in ast.walk(lp))]
+        first_only = len(apps) >= 1 and all(flow.equivalent(c, wcond)[0] for s, c, e in apps) and not elsewhere
+        is_dedup = isinstance(src, ast.Call) and call_name(src) in ('dict.fromkeys',)   # an order-preserving dedup is also fine
+        elt_ok = u(inc_fmt[0].args[0]) == u(gen.generators[0].target) if not isinstance(gen.generators[0].target, ast.Tuple) else \
+            u(inc_fmt[0].args[0]) == u(gen.generators[0].target.elts[0])
+        pushed = all(u(s.value.args[0]) == tvar for s, c, e in apps) if not is_dedup else True
+        ck.ob('PROV-include-once', top.loc(inc_fmt[0]), (first_only or is_dedup) and elt_ok and pushed and not gen.generators[0].ifs,
+              'the #include lines are produced from `{}`, which receives a molecule type exactly when its ITP is written (first occurrence): '
+              '{} append site(s) in the loop, guards {}'.format(src_name, len(apps), [flow.show(c)[:60] for s, c, e in apps]), key='PROV-include-once|include-list')
     # counts: one [ molecules ] entry per group, count = consumed + remaining
     cnt_fmt = [c for c in walk_local(wt) if isinstance(c, ast.Call) and call_attr(c) == 'format' and 'num' in [k.arg for k in c.keywords]]
     ck.need(len(cnt_fmt) == 1, 'write_gmx_topology: the [ molecules ] line format not found')
